@@ -174,6 +174,27 @@ pub fn run_c06<C: NatCtx>(v: &mut Env<C>) {
             return;
         }
     }
+    // a label beyond 2^24 bytes is a label like any other: a proof made for it verifies for it and NOT for its own
+    // SHA-512 digest used as a label (62-bit group: a chance collision of two challenges has probability 2^-61)
+    if !v.small && p.bits() < 100 {
+        for len in if quick { vec![(1usize << 24) + 1] } else { vec![(1 << 24) + 1, (1 << 26) + 1] } {
+            let label = vec![0xa5u8; len];
+            let digest = strand::util::hash(&label);
+            let x = v.rnd_exp();
+            let (xe, ye) = (v.x(&x), v.e(&g.modpow(&x, &p)));
+            strand::verif_hooks::load_exp_tape(vec![]);
+            let tok = v.tok.clone();
+            let pf = zkp.schnorr_prove(&xe, &ye, None, &label).unwrap();
+            v.h.check(zkp.schnorr_verify(&ye, None, &pf, &label), || format!("honest Schnorr proof with a {}-byte label rejected on {}", len, tok));
+            v.h.check(!zkp.schnorr_verify(&ye, None, &pf, &digest), || format!("a Schnorr proof made for a {}-byte label is accepted for the 64-byte label SHA-512(label) on {}", len, tok));
+            let gr = v.rnd_member();
+            let f = gr.modpow(&x, &p);
+            let (gre, fe, me) = (v.e(&gr), v.e(&f), v.e(&gr));
+            let cp = zkp.decryption_proof(&xe, &ye, &fe, &me, &gre, &label).unwrap();
+            v.h.check(zkp.verify_decryption(&ye, &fe, &me, &gre, &cp, &label).unwrap_or(false), || format!("honest decryption proof with a {}-byte label rejected on {}", len, tok));
+            v.h.check(!zkp.verify_decryption(&ye, &fe, &me, &gre, &cp, &digest).unwrap_or(false), || format!("a decryption proof made for a {}-byte label is accepted for the label SHA-512(label) on {}", len, tok));
+        }
+    }
     // adversarial families (all sizes)
     let reps = if v.small { 20 } else if quick { 3 } else { 25 };
     let strict = !v.small;
